@@ -37,12 +37,17 @@ LEVEL = "exploration"
 RULE = ("histories of <= 8 steps (Dynamo0p3ColourTrans, DynamoOMPParallelLoop"
         "Trans, Dynamo0p3OMPLoopTrans, OMPParallelTrans, ACCParallelTrans, "
         "ACCLoopTrans, ACCKernelsTrans, Dynamo0p3RedundantComputationTrans, "
-        "LFRicLoopFuseTrans, MoveTrans on Hypothesis-chosen loops/ranges) "
+        "LFRicLoopFuseTrans, MoveTrans on Hypothesis-chosen loops (any loop "
+        "or the k-th loop of a chosen type cells/colour/colours), node "
+        "ranges and move targets) "
         "over invokes of the repository's LFRic test algorithms (chosen by "
         "metadata feature: GH_INC, GH_READINC, ANY_SPACE/ANY_W2 increments, "
         "GH_WRITE on continuous spaces, discontinuous GH_READWRITE, multi-"
-        "kernel, inter-grid, built-ins) and over generated algorithm+kernel "
-        "metadata, dm on/off; non-trivial = >=1 accepted parallel "
+        "kernel, inter-grid, built-ins; every shard works on its slice of the "
+        "276 usable files) and over generated algorithm+kernel metadata (an "
+        "enumerated library of 1- and 2-kernel invokes covering every "
+        "access/space flavour, plus Hypothesis-drawn 1-3 kernel invokes), dm "
+        "on/off; non-trivial = >=1 accepted parallel "
         "transformation (loop or region) applied to a loop whose kernel has "
         "a GH_INC/GH_READINC argument on a continuous/unknown space; "
         "distinct = (source, dm, accepted steps)")
